@@ -228,6 +228,9 @@ func runStep(self, root, layout string, pc pipeCase, st pipeStep, scratch string
 		if strings.HasSuffix(k, "|T2") {
 			plan[strings.TrimSuffix(k, "|T2")+"|t1"] = v
 			plan[strings.TrimSuffix(k, "|T2")+"|t2"] = v
+			for i := 1; i <= 30; i++ {
+				plan[strings.TrimSuffix(k, "|T2")+fmt.Sprintf("|U%02d", i)] = v
+			}
 		}
 	}
 	if st.Fault.Kind != "" && st.Fault.Kind != "none" {
